@@ -97,7 +97,7 @@ Definition sem_case (fuel : nat) (before after : func) (args : list Z) : N :=
   | _ => if inv_ok then 0%N else 3%N
   end.
 Definition sem_cases (before after : func) : list N :=
-  map (fun j => sem_case 300 before after (arg_vector (length (f_params before)) j)) (seq 0 6).
+  map (fun j => sem_case 100 before after (arg_vector (length (f_params before)) j)) (seq 0 6).
 
 (* ---- one tie case ---- *)
 Inductive pass := PDce | PCcp | PLvn.
